@@ -29,6 +29,7 @@ def true_cv(xf, lb, ub, lin, nl_vals):
     if lb is not None:          # bounds (0 when they are consistent: build_x projects)
         v = max(0.0, float(np.max(lb - xf, initial=0.0)), float(np.max(xf - ub, initial=0.0)))
     for (A, l, u) in lin:
+        l, u = np.where(np.isnan(l), -np.inf, l), np.where(np.isnan(u), np.inf, u)      # a NaN limit means "no limit"
         r = A @ xf
         v = max(v, float(np.max(np.maximum(l - r, 0.0), initial=0.0)), float(np.max(np.maximum(r - u, 0.0), initial=0.0)))
     for (val, l, u) in nl_vals:
@@ -89,8 +90,12 @@ class ProblemInitBounded(Unit):
                     A = rng.uniform(-2, 2, (m, n))
                     kind = rng.integers(0, 4, m)
                     l = np.where(kind == 0, -np.inf, rng.uniform(-2, 0, m))
-                    u = np.where(kind == 1, np.inf, l + rng.uniform(0.1, 3, m))
+                    u = np.where(kind == 1, np.inf, np.where(kind == 0, 0.0, l) + rng.uniform(0.1, 3, m))
                     u = np.where(kind == 3, l, u)
+                    if rng.random() < 0.25:
+                        # "no limit" written as NaN instead of an infinity (accepted by the package: NaN limits are ignored)
+                        l = np.where(np.isneginf(l), np.nan, l)
+                        u = np.where(np.isposinf(u), np.nan, u)
                     lin.append((A, l, u))
                 info = dict(case=k, lb=lb.tolist(), ub=ub.tolist(), scale=scale, x0=x0.tolist(),
                             linear=[(A.tolist(), l.tolist(), u.tolist()) for A, l, u in lin])
